@@ -9,7 +9,7 @@
    non-negative roots of pre_values.  sqrt / exp / log are never computed: they are characterised. *)
 From Coq Require Import QArith Qabs List Bool ZArith Permutation.
 From Coq Require String.
-Require Import SkV.C06.Model SkV.C06.Gen SkV.C06.Bridge SkV.C06.Agg SkV.C06.Proofs.
+Require Import SkV.C06.Model SkV.C06.Gen SkV.C06.Bridge SkV.C06.Agg SkV.C06.Proofs SkV.C06.GMean.
 Require Import SkV.C06.Wrap SkV.C06.WrapSem SkV.C06.GenWrap.
 Import ListNotations.
 Open Scope Q_scope.
@@ -99,6 +99,34 @@ Print Assumptions C06_equal_horizon_weights_are_no_weights.
 Theorem C06_zero_weight_step_is_ignored : forall w l x, wmean (0 :: w) (x :: l) == wmean w l.
 Proof. exact wmean_zero_weight. Qed.
 Print Assumptions C06_zero_weight_step_is_ignored.
+
+(* geometric means: the model uses integer weights proportional to the horizon weights; which
+   common multiple is used does not matter (r2 = 2 when the square root is taken as well) *)
+Theorem C06_gmean_any_proportional_integer_weights : forall a b r2 W W' l s,
+  (0 < a)%Z -> (0 < b)%Z -> map (Z.mul a) W' = map (Z.mul b) W -> Forall (fun x => 0 <= x) l ->
+  0 <= s ->
+  (s ^ (r2 * gm_deg W') == gm_pre W' l <-> s ^ (r2 * gm_deg W) == gm_pre W l).
+Proof. exact gm_roots_proportional. Qed.
+Print Assumptions C06_gmean_any_proportional_integer_weights.
+
+Theorem C06_gmean_horizon_weights_scale_free : forall b k rt mo w cols c v, 0 < c ->
+  let m := mkmetric (FSimple b k GMean) rt in
+  is_value (mkfcase m mo (Some (map (Qmult c) w)) cols) v <->
+  is_value (mkfcase m mo (Some w) cols) v.
+Proof. exact gmean_weights_scale_free. Qed.
+Print Assumptions C06_gmean_horizon_weights_scale_free.
+
+Theorem C06_gmean_equal_horizon_weights_are_no_weights : forall b k rt mo cols n c v,
+  0 < c -> Forall (shaped n) cols ->
+  let m := mkmetric (FSimple b k GMean) rt in
+  is_value (mkfcase m mo (Some (repeat c n)) cols) v <-> is_value (mkfcase m mo None cols) v.
+Proof. exact gmean_equal_weights. Qed.
+Print Assumptions C06_gmean_equal_horizon_weights_are_no_weights.
+
+Theorem C06_gmean_zero_weight_step_is_ignored : forall W l x,
+  gm_pre (0%Z :: W) (x :: l) == gm_pre W l /\ gm_deg (0%Z :: W) = gm_deg W.
+Proof. exact gm_zero_weight_step. Qed.
+Print Assumptions C06_gmean_zero_weight_step_is_ignored.
 
 (* ---- values *)
 
